@@ -77,6 +77,8 @@ class World:
         self.post_mode = SIGNER         # mode entered when the bootloader is left after unlock
         self.mode_error = False         # GET_MODE answers with a foreign status word
         self.exit_raises = True         # leaving an app drops the link (as USB does)
+        self.exit_drop = "read"         # ... which the host notices as a failed read, a failed
+        #                                 write (the device is gone already) or a time-out
         self.hashes = {k: bytes([k & 0x7f]) * 32 for k in (1, 2, 3, 5, 0x81, 0x82, 0x84)}
         self.difficulty = 12345
         self.flags = (0, 1, 0)
@@ -188,14 +190,14 @@ class Dongle:
                 w.log.append(("fault", f, apdu))
                 raise link_fault(f)
             w.log.append(("drop", apdu))
-            raise OSError("read error")
+            raise link_fault(getattr(w, "exit_drop", "read"))
         if f in ("read", "timeout"):
             w.log.append(("fault", f, apdu))
             raise link_fault(f)
         w.last_answer = bytes(r)
         w.answers[-1][1] = bytes(r)
         if isinstance(f, (tuple, list)) and f[0] == "op":
-            w.log.append(("fault", "op", apdu))
+            w.log.append(("fault", "op", apdu, bytes(r)))
             r = bytes(r[:2]) + bytes([f[1]]) + bytes(f[2] if len(f) > 2 and f[2] is not None
                                                      else r[3:])
             w.last_answer = r
